@@ -63,17 +63,86 @@ def value_alloc_bodies(facts):
     return out
 
 
+def alloc_guard_param(facts, b, allocs):
+    """k if every value allocation of b happens only when its Option<V> parameter k is Some (e.g. replace_node's new_value)"""
+    from .analysis import dominated_by_edge, flow
+    from .facts import op_local
+    fl = flow(b)
+    for k in range(1, b.nargs + 1):
+        if b.ty(k)["s"] != "std::option::Option<V>":
+            continue
+        edges = []
+        for blk in range(len(b.blocks)):
+            t = b.term(blk)
+            if t["k"] != "switch":
+                continue
+            l = op_local(t["on"])
+            for pt, kind, data in b.defs.get(l, []) if l is not None else []:
+                if kind == "assign" and "discr" in data["rv"] and not data["rv"]["discr"]["proj"] and data["rv"]["discr"]["local"] == k:
+                    for v, tb in t["targets"]:
+                        if v == "1":
+                            edges.append((blk, tb))
+                    if not any(v == "1" for v, _ in t["targets"]) and [v for v, _ in t["targets"]] == ["0"]:
+                        edges.append((blk, t["otherwise"]))
+        if edges and all(dominated_by_edge(b, c.point, edges) for c in allocs[b.id]):
+            return k
+    return None
+
+
+def passes_none(facts, g, call, k):
+    """the call passes a constant None for parameter k"""
+    from .analysis import flow
+    from .facts import op_root
+    if k - 1 >= len(call.args):
+        return False
+    l = op_root(call.args[k - 1])
+    if l is None:
+        return False
+    vs = set()
+    seen, stack = set(), [l]
+    while stack:
+        x = stack.pop()
+        if x in seen:
+            continue
+        seen.add(x)
+        for kind, data, pt in flow(g).sources(x):
+            if kind == "agg" and "adt" in data["rv"]["agg"]:
+                vs.add(data["rv"]["agg"]["variant"])
+            elif kind == "copy":
+                stack.append(data)
+            else:
+                vs.add("?")
+    return vs == {"None"}
+
+
 def inserting(facts):
+    """exported functions from which a value allocation is reachable, not counting calls that pass None for the Option<V> parameter that
+    alone guards the callee's allocations (remove -> replace_node(key, None, ..) never allocates a value)"""
+    from collections import deque
     cg = callgraph(facts)
     allocs = value_alloc_bodies(facts)
+    guard = {bid: alloc_guard_param(facts, facts.by_id[bid], allocs) for bid in allocs}
     out = []
     for b in facts.bodies:
         if b.kind == "Closure" or not b.exported or impl_head(b) not in FACADE_HEADS:
             continue
-        seen = cg.reachable(b.id)
-        hit = [x for x in seen if x in allocs]
+        seen = {b.id: (None, None)}
+        dq = deque([b.id])
+        hit = None
+        while dq and hit is None:
+            x = dq.popleft()
+            if x in allocs and x != b.id or (x == b.id and x in allocs):
+                hit = x
+                break
+            for y, via in cg.edges.get(x, []):
+                if y in seen:
+                    continue
+                if y in allocs and guard.get(y) and hasattr(via, "args") and passes_none(facts, facts.by_id[x], via, guard[y]):
+                    continue
+                seen[y] = (x, via)
+                dq.append(y)
         if hit:
-            out.append((b, hit[0], cg.chain(seen, hit[0])))
+            out.append((b, hit, cg.chain(seen, hit)))
     return out, allocs
 
 
@@ -195,8 +264,8 @@ def rayon_program(kind, which, ptr):
 
 def run(ctx, facts, deps=None, work=None, repo=None):
     feats = set(facts.features)
-    ctx.rule("P1", "every exported function that can reach the allocation of a value requires Send + Sync of the key (and value) type", floor=25,
-             floor_note="29 inserting entry points without features, 37 with serde+rayon")
+    ctx.rule("P1", "every exported function that can reach the allocation of a value requires Send + Sync of the key (and value) type", floor=12,
+             floor_note="15 inserting entry points without features, 23 with serde+rayon (remove/retain pass None and are not inserting)")
     ctx.rule("P2", "unsafe impl Send/Sync for BinEntry<K,V> is conditional on K,V: Send resp. Sync; no unconditional one mentions K/V", floor=2)
     ctx.rule("P3", "read entry points carry no Send/Sync bound on K, V, T", floor=15)
     ctx.rule("P4", "witnesses: Rc key / Rc value rejected with E0277/E0599 at every inserting entry point; Arc twin compiles; lookups on Rc maps compile",
